@@ -32,6 +32,11 @@ def load_contracts(prop):
     return mod
 
 
+def _has_incomplete_ghost(ob):
+    txt = ' '.join(f.sexpr() for f in ob.formula())
+    return any(('(' + g + ' ') in txt for g in ('exp', 'log', 'rpow'))
+
+
 def _run_one(args):
     prop, name, tier, sizes = args
     spec = HARNESSES[(prop, name)]
@@ -92,6 +97,9 @@ def _run_one(args):
             rec['backend'] = r['backend']
             if r['status'] == 'unsat':
                 continue
+            if r['status'] == 'sat' and _has_incomplete_ghost(ob):
+                # a model under the incomplete axioms of exp/log/rpow/f32 is not a counterexample: undecided, not refuted
+                r = dict(r, status='unknown', reason='satisfiable only under the incomplete axiomatisation of transcendental ghost functions')
             if r['status'] == 'sat':
                 rec['status'] = 'refuted'
                 rec['model'] = r.get('model')
